@@ -448,7 +448,11 @@ pub fn gen_agg_call(rng: &mut Rng, s: &Schema, cfg: &ExprCfg, order_insensitive_
             let inner = E::Agg("sum".into(), false, vec![agg_arg(rng, s, &Ty::Int, cfg)]);
             match rng.below(3) { 0 => bin("*", inner, int(2)), 1 => bin("+", int(1), inner), _ => bin("-", inner, int(1)) }
         }
-        12 => { let inner = E::Agg("count".into(), false, vec![E::Star]); bin("*", inner, int(10)) }
+        12 => {
+            // ... around COUNT: COUNT over a column is 0 (not NULL) for a group in which the column is NULL everywhere
+            let inner = if rng.chance(1, 2) { E::Agg("count".into(), false, vec![E::Star]) } else { let c = &s.cols[rng.below(s.cols.len())]; E::Agg("count".into(), rng.chance(1, 4), vec![col(&c.0)]) };
+            match rng.below(4) { 0 => bin("*", inner, int(10)), 1 => bin("+", int(1), inner), 2 => bin("-", bin("*", inner, int(10)), int(3)), _ => bin("-", int(100), inner) }
+        }
         13 => E::Agg("string_agg".into(), false, vec![agg_arg(rng, s, &Ty::Text, cfg), text(*rng.pick(&[",", "", "; ", "-"]))]),
         14 => { let t = match rng.below(3) { 0 => Ty::Text, 1 => Ty::Real, _ => Ty::Int }; E::Agg("array_agg".into(), false, vec![agg_arg(rng, s, &t, cfg)]) }
         _ => E::Agg("string_agg".into(), false, vec![agg_arg(rng, s, &Ty::Text, cfg), text(",")]),
